@@ -329,6 +329,10 @@ class ContractEval:
             for oid in list(st.heap.keys()):
                 if oid not in entry and not str(oid).startswith("g:"):
                     st.heap[oid] = self.havoc_val(eng, st.heap[oid], f.short + ".local")
+        # ghost variables (tick counters, flags) advance in the body: havoc them too, the invariant pins them down
+        for gk, gv in list(st.ghost.items()):
+            if is_z3(gv):
+                st.ghost[gk] = z3.Const(eng.fresh_name("ghost." + gk), gv.sort())
         for ins in b["instrs"]:
             if ins["op"] != "Phi":
                 break
